@@ -432,6 +432,7 @@ def glitch_failures(prog, steps):
     """C02 oracle (effect-write-free programs): per propagation each computation runs at most once, reads only
     settled derived values, and re-runs only if something it was subscribed to fired."""
     comps = computations(prog)
+    single = single_instance_names(prog)
     fails = []
     for k, st in enumerate(steps):
         if st["snap"] is None or k >= len(prog):
@@ -515,6 +516,16 @@ def glitch_failures(prog, steps):
                         known = "F1-late-read"
                 fails.append({"oracle": "justified-rerun", "step": k, "node": r["name"], "previous_subscriptions": sorted(deps),
                               "fired": sorted(fired), "was_dirty": p["dirty"], "known": known})
+            elif r["name"] in single and not p["dirty"]:
+                # the property's letter: "re-runs only if something it read WITH TRACKING in its previous run was written / re-ran /
+                # changed" -- a re-run that only a subscription to something else explains (the previous run read it without
+                # tracking, or not at all) is not justified. Judged for names that denote one node only.
+                ks, run = last_run_of(steps, k - 1, r["name"])
+                if run and run["end"] is not None:
+                    spec = {x for (x, v, syn, eff, pos) in run["reads"] if eff} | {x for (x, eff, pos) in run["tracks"] if eff}
+                    if not (spec & fired):
+                        fails.append({"oracle": "rerun-without-tracked-trigger", "step": k, "node": r["name"], "read_with_tracking_in_previous_run": sorted(spec),
+                                      "subscriptions": sorted(deps), "fired": sorted(fired), "known": None})
     return fails
 
 
